@@ -288,6 +288,43 @@ pub(crate) mod c10_keys_and_info {
     }
 
     harness! {
+        #[kani::unwind(34)]
+        fn q10_conversion_info_roundtrip() {
+            // metadata survives its own wire form unchanged (mixed-case site, symbolic numeric fields)
+            let key_id: u8 = kani::any();
+            let ts: u64 = kani::any();
+            let eps: f64 = kani::any();
+            let sens: f64 = kani::any();
+            kani::assume(!eps.is_nan() && !sens.is_nan());
+            let info = match HybridConversionInfo::new(key_id, "aB.c", ts, eps, sens) {
+                Ok(i) => i,
+                Err(e) => {
+                    std::mem::forget(e);
+                    kani::assume(false);
+                    unreachable!()
+                }
+            };
+            let wire = info.to_bytes();
+            assert!(wire.len() == 4 + 1 + 1 + 24);
+            match HybridConversionInfo::from_bytes(&wire) {
+                Ok(back) => {
+                    assert!(back.key_id == key_id && back.timestamp == ts && back.epsilon == eps && back.sensitivity == sens);
+                    let d = back.conversion_site_domain.as_bytes();
+                    assert!(d.len() == 4 && d[0] == b'a' && d[1] == b'B' && d[2] == b'.' && d[3] == b'c', "the site domain is returned byte for byte");
+                    std::mem::forget(back);
+                }
+                Err(e) => {
+                    std::mem::forget(e);
+                    assert!(false, "a well-formed metadata block must parse");
+                }
+            }
+            kani::cover!(true);
+            std::mem::forget(wire);
+            std::mem::forget(info);
+        }
+    }
+
+    harness! {
         #[kani::unwind(4)]
         fn q10_impression_info_binds_key_id() {
             let key_id: u8 = kani::any();
